@@ -533,6 +533,55 @@ func TestPropConcurrentUse(t *testing.T) {
 			}
 			rec.Class("lookalike-key-twins")
 		}
+		// (e) interpolating without a caller environment (nil): two distinct pipelines, one after the other
+		// and then concurrently, each must come out as if it had been given an empty environment of its
+		// own - whatever the other one's env block defines (no fallback environment kept between calls)
+		{
+			name := rapid.SampledFrom([]string{"V1", "V2", "REGION", "K"}).Draw(t, "nilenvname")
+			va := rapid.SampledFrom([]string{"from-A", "a", "1"}).Draw(t, "nilenva")
+			vb := rapid.SampledFrom([]string{"from-B", "b", "2"}).Draw(t, "nilenvb")
+			docA := fmt.Sprintf("env:\n  %s: %s\nsteps:\n  - command: \"echo $%s\"\n", name, va, name)
+			docB := fmt.Sprintf("steps:\n  - command: \"echo ${%s:-unset}\"\n", name)
+			if rapid.Bool().Draw(t, "nilenvbdefines") {
+				docB = fmt.Sprintf("env:\n  %s: %s\nsteps:\n  - command: \"echo ${%s:-unset}\"\n", name, vb, name)
+			}
+			prefer := rapid.Bool().Draw(t, "nilenvprefer")
+			run := func(text string, env pipeline.InterpolationEnv) string {
+				p, err := pipeline.Parse(strings.NewReader(text))
+				if err != nil {
+					return "parse: " + err.Error()
+				}
+				if err := p.Interpolate(env, prefer); err != nil {
+					return "interpolate: " + err.Error()
+				}
+				return p.Steps[0].(*pipeline.CommandStep).Command
+			}
+			wantA, wantB := run(docA, envx.New(false, nil)), run(docB, envx.New(false, nil))
+			for i, text := range []string{docA, docB, docA, docB} {
+				want := map[bool]string{true: wantA, false: wantB}[i%2 == 0]
+				if got := run(text, nil); got != want {
+					t.Fatalf("Interpolate(nil, %v) on\n%s gives %q, with an empty environment of its own it gives %q (another pipeline was interpolated with a nil environment before)", prefer, text, got, want)
+				}
+			}
+			startE := make(chan struct{})
+			outs := make([]string, workers)
+			for i := 0; i < workers; i++ {
+				wg.Add(1)
+				go func(i int) {
+					defer wg.Done()
+					<-startE
+					outs[i] = run(map[bool]string{true: docA, false: docB}[i%2 == 0], nil)
+				}(i)
+			}
+			close(startE)
+			wg.Wait()
+			for i, got := range outs {
+				if want := (map[bool]string{true: wantA, false: wantB})[i%2 == 0]; got != want {
+					t.Fatalf("goroutine %d: Interpolate(nil, %v) gives %q, expected %q", i, prefer, got, want)
+				}
+			}
+			rec.Class("nil-environment-pairs")
+		}
 		nt := tomb && len(shared) >= 1
 		rec.Case(ev.Hash(d.YAML, mBefore), nt, "key="+kp.Kind, fmt.Sprintf("tombstones=%v", tomb), fmt.Sprintf("gomaxprocs=%d", runtime.GOMAXPROCS(0)))
 		rec.ClassN("goroutine-runs", 2*workers)
